@@ -187,6 +187,7 @@ func c05IamLevel(base *Wrapper) storage.VerifC05Level {
 	return func(b *storage.VerifC05Backend, scn *storage.VerifC05Scn) ([]func() string, error) {
 		w := *base
 		w.storageEngine = c05Engine{Engine: base.storageEngine, db: b.DB}
+		c05CurrentExec = b.Gate.Exec
 		pkce := generatePKCEParams()
 		for _, i := range scn.Init {
 			var err error
@@ -396,7 +397,12 @@ func TestVerifC05(t *testing.T) {
 	defer w.Close()
 
 	tc := newTestClient(t)
-	tc.jar.EXPECT().Sign(gomock.Any(), gomock.Any()).Return("signed-request-object", nil).AnyTimes()
+	// the signer is a collaborator the request-object handlers call after the object has been taken from the store:
+	// a handler-level parking point (the request is still in flight there)
+	tc.jar.EXPECT().Sign(gomock.Any(), gomock.Any()).DoAndReturn(func(_ context.Context, _ oauthParameters) (string, error) {
+		storage.VerifC05ExtPark(c05CurrentExec)
+		return "signed-request-object", nil
+	}).AnyTimes()
 	c05S2SInit(t, tc)
 	level := c05IamLevel(tc.client)
 	c05TheLevel = level
@@ -649,6 +655,7 @@ func c05Window(w *storage.VerifC05Writer, base *Wrapper, validity, skew, first, 
 }
 
 var c05TheLevel storage.VerifC05Level
+var c05CurrentExec *storage.VerifC05Exec
 
 func c05ReplayWindows(w *storage.VerifC05Writer, base *Wrapper, path string) {
 	data, err := os.ReadFile(path)
